@@ -108,8 +108,8 @@ Definition env_input (s : env_strategy) (xs : list Qc) : list Qc :=
    and that low-pass is the one-pole recursion's closed form *)
 Definition holds_env (c : evcase) : bool :=
   res_eqb (list_eqb eout_eqb) (ev_obs c) (Ok (env_wrap (ev_s c) (ev_direct c)))
-  && qlist_eqb (ev_direct c) (lowpass_spec (ev_g c) (ev_a1 c) (env_input (ev_s c) (ev_xs c)))
-  && res_eqb (list_eqb eout_eqb) (ev_obs c) (Ok (envelope_spec (ev_s c) (ev_g c) (ev_a1 c) (ev_xs c))).
+  && qlist_eqb (ev_direct c) (lowpass_spec (ev_g c) (ev_a1 c) (env_input (ev_s c) (ev_xs c))).
+(* (the two conjuncts together say  obs = envelope_spec s g a1 xs) *)
 
 (* ---------------------------------------------------------------- clip *)
 Record clcase := CL { cl_low : option Qc; cl_high : option Qc; cl_xs : list Qc;
